@@ -1,8 +1,496 @@
 package catchup
 
-import "testing"
+// C30 — catch-up only appends authenticated blocks, in order.
+//
+// The real catchup Service (periodicSync / sync / pipelinedFetch / fetchAndWrite / fetchRound, universalBlockFetcher, peer
+// selectors) runs against 2-5 mock peers whose responses are decided per request by the harness and released one at a time
+// through gates in a generated order. The ledger is a recording wrapper, the authenticator a recording mock whose verdict
+// is a pure predicate of (block round, block digest, cert). After the service has been stopped (all its goroutines joined)
+// the recorded history is checked: writes are consecutive from LastRound+1, each written block is the canonical block of
+// its round, matches its header, and was approved together with exactly the certificate it is written with, before the write.
+
+import (
+	"fmt"
+	"io"
+	"os"
+	"sort"
+	"sync"
+	"testing"
+	"time"
+
+	"github.com/algorand/go-deadlock"
+	"pgregory.net/rapid"
+
+	"github.com/algorand/go-algorand/config"
+	"github.com/algorand/go-algorand/data/basics"
+	"github.com/algorand/go-algorand/logging"
+	"github.com/algorand/go-algorand/protocol"
+)
+
+// ---------------------------------------------------------------- case description
+
+type c30PeerDesc struct {
+	WS          bool
+	Class       int
+	Preset      [2]int
+	HonestAfter [2]int
+	SlowPct     int
+	DupPct      int
+	FlipAt      int
+}
+
+type c30Case struct {
+	Seed       uint64
+	L          int
+	Start      int
+	EmptyPct   int
+	Peers      []c30PeerDesc
+	Parallel   uint64
+	Mode       int
+	PRev, PFwd int
+	QuietUs    int
+	Budget     int
+	TipBudget  int
+	PushCerts  bool
+	RoundEstMs int
+}
+
+var c30PresetNames = []string{"mixed", "payset", "header+cert", "wrong-round", "flaky", "forged"}
+
+func c30Preset(id int) (w [c30NKinds]int) {
+	switch id {
+	case 0: // mixed
+		for k := c30PaysetAlt; k <= c30BeyondFab; k++ {
+			w[k] = 3
+		}
+		w[c30Garbage], w[c30NoBlock], w[c30Error] = 2, 1, 2
+	case 1: // payset
+		w[c30PaysetAlt] = 12
+		w[c30Consistent], w[c30Garbage], w[c30Error] = 2, 1, 1
+	case 2: // header + cert tampering
+		w[c30HeaderAlt], w[c30Consistent], w[c30CertForged], w[c30CertOtherRenum] = 5, 4, 4, 4
+		w[c30Error] = 1
+	case 3: // answers for another round
+		w[c30PairOther], w[c30CertOther], w[c30PairOtherRenum], w[c30CertOtherRenum] = 8, 3, 3, 2
+		w[c30NoBlock] = 1
+	case 4: // flaky
+		w[c30Error], w[c30Garbage], w[c30NoBlock] = 6, 4, 2
+		w[c30PaysetAlt] = 2
+	case 5: // forgeries
+		w[c30ForgedPair], w[c30BeyondFab], w[c30CertForged], w[c30Consistent] = 6, 3, 3, 2
+		w[c30Garbage] = 1
+	}
+	return
+}
+
+func (d c30PeerDesc) spec() c30PeerSpec {
+	s := c30PeerSpec{ws: d.WS, class: d.Class, flipAt: d.FlipAt}
+	for i := 0; i < 2; i++ {
+		s.prof[i] = c30Profile{honestAfter: d.HonestAfter[i], weights: c30Preset(d.Preset[i]), slowPct: d.SlowPct, dupPct: d.DupPct}
+		// beyond the tip every peer mostly says "no such block"; the weights above apply below the tip (c30Build maps the rest)
+	}
+	return s
+}
+
+func c30DrawCase(t *rapid.T, certOnly bool) c30Case {
+	c := c30Case{
+		Seed:       rapid.Uint64().Draw(t, "seed"),
+		L:          rapid.IntRange(8, 30).Draw(t, "L"),
+		Start:      rapid.IntRange(0, 3).Draw(t, "start"),
+		EmptyPct:   rapid.SampledFrom([]int{0, 30, 30, 70, 100}).Draw(t, "emptyPct"),
+		Mode:       rapid.SampledFrom([]int{0, 0, 0, 0, 4, 8, 12}).Draw(t, "validateMode"),
+		QuietUs:    rapid.SampledFrom([]int{100, 200, 400}).Draw(t, "quietUs"),
+		TipBudget:  rapid.IntRange(0, 12).Draw(t, "tipBudget"),
+		RoundEstMs: rapid.SampledFrom([]int{1, 2, 5}).Draw(t, "roundEstMs"),
+	}
+	if certOnly {
+		c.Parallel = 0
+		c.PushCerts = true
+		c.L = rapid.IntRange(8, 16).Draw(t, "Lcert")
+		c.Budget = rapid.IntRange(30, 160).Draw(t, "budget")
+	} else {
+		c.Parallel = rapid.SampledFrom([]uint64{2, 3, 4, 8, 16, 16}).Draw(t, "parallel")
+		c.PushCerts = rapid.IntRange(0, 3).Draw(t, "pushCerts") == 0
+		c.Budget = rapid.IntRange(40, 320).Draw(t, "budget")
+	}
+	switch rapid.IntRange(0, 3).Draw(t, "order") {
+	case 0:
+		c.PRev, c.PFwd = 80, 5
+	case 1:
+		c.PRev, c.PFwd = 45, 15
+	case 2:
+		c.PRev, c.PFwd = 0, 0
+	default:
+		c.PRev, c.PFwd = 10, 70
+	}
+	n := rapid.IntRange(2, 5).Draw(t, "npeers")
+	allBad := rapid.IntRange(0, 11).Draw(t, "allBad") == 0
+	anyHonest := false
+	for i := 0; i < n; i++ {
+		d := c30PeerDesc{
+			WS:      rapid.IntRange(0, 2).Draw(t, "ws") == 0,
+			Class:   rapid.SampledFrom([]int{0, 0, 1, 1, 2, 3}).Draw(t, "class"),
+			SlowPct: rapid.SampledFrom([]int{0, 0, 15, 40}).Draw(t, "slowPct"),
+			DupPct:  rapid.SampledFrom([]int{0, 10, 30}).Draw(t, "dupPct"),
+		}
+		for j := 0; j < 2; j++ {
+			d.Preset[j] = rapid.IntRange(0, len(c30PresetNames)-1).Draw(t, "preset")
+			d.HonestAfter[j] = rapid.SampledFrom([]int{0, 1, 1, 2, 2, 3, -1}).Draw(t, "honestAfter")
+		}
+		if rapid.IntRange(0, 2).Draw(t, "flips") == 0 {
+			d.FlipAt = rapid.IntRange(5, 120).Draw(t, "flipAt")
+		}
+		if allBad {
+			d.HonestAfter = [2]int{-1, -1}
+		}
+		if d.HonestAfter[0] >= 0 && (d.FlipAt == 0 || d.HonestAfter[1] >= 0) {
+			anyHonest = true
+		}
+		c.Peers = append(c.Peers, d)
+	}
+	if !anyHonest && !allBad {
+		c.Peers[0].HonestAfter = [2]int{rapid.IntRange(1, 2).Draw(t, "fixHonest"), 1}
+	}
+	return c
+}
+
+// ---------------------------------------------------------------- process-wide quieting (restored at the end of the test)
+
+func c30QuietGlobals() func() {
+	base := logging.Base()
+	oldLevel := base.GetLevel()
+	base.SetLevel(logging.Panic)
+	oldDisable := deadlock.Opts.Disable
+	deadlock.Opts.Disable = true // the 30 s lock-wait watchdog would os.Exit the test binary on a starved machine
+	return func() {
+		base.SetLevel(oldLevel)
+		deadlock.Opts.Disable = oldDisable
+	}
+}
+
+func c30Logger() logging.Logger {
+	l := logging.NewLogger()
+	l.SetOutput(io.Discard)
+	l.SetLevel(logging.Panic)
+	return l
+}
+
+// ---------------------------------------------------------------- one case
+
+type c30Outcome struct {
+	end        string
+	releases   int
+	writes     int
+	nontrivial bool
+}
+
+var c30FirstFailure sync.Once
+
+func c30RunCase(t *rapid.T, vk *vkCtx, log logging.Logger, c c30Case) {
+	chain := c30BuildChain(c.Seed, c.L, func(r int, rng *c30Rng) int {
+		if rng.intn(100) < c.EmptyPct {
+			return 0
+		}
+		return 1 + rng.intn(4)
+	})
+	tip := chain.tip()
+	rec := c30NewRec()
+	inner := new(mockedLedger)
+	inner.blocks = append(inner.blocks, chain.blocks[:c.Start+1]...) // set up directly on the inner mock: not a service write
+	led := &c30Ledger{mockedLedger: inner, rec: rec}
+	specs := make([]c30PeerSpec, len(c.Peers))
+	for i, d := range c.Peers {
+		specs[i] = d.spec()
+	}
+	ctl := c30NewCtl(chain, rec, c.Seed, specs)
+	net := c30MakeNet(ctl)
+	auth := &c30Auth{rec: rec, secret: chain.secret}
+	cfg := config.GetDefaultLocal()
+	cfg.CatchupParallelBlocks = c.Parallel
+	cfg.CatchupBlockValidateMode = c.Mode
+	certCh := make(chan PendingUnmatchedCertificate, 1)
+
+	s := MakeService(log, cfg, net, led, auth, certCh, nil)
+	s.roundTimeEstimate = time.Duration(c.RoundEstMs) * time.Millisecond
+	s.Start()
+
+	// ---- scheduler: release the gated responses one by one in the generated order
+	quiet := time.Duration(c.QuietUs) * time.Microsecond
+	srng := &c30Rng{s: c30Mix(c.Seed, 0x5c4ed)}
+	out := c30Outcome{}
+	start := time.Now()
+	const caseDeadline = 45 * time.Second
+	const idleWait = 150 * time.Millisecond
+	idleStrikes := 0
+	tipReleases := 0
+	pushedRound := basics.Round(0)
+	for {
+		if time.Since(start) > caseDeadline {
+			out.end = "deadline"
+			break
+		}
+		if out.releases >= c.Budget {
+			out.end = "budget"
+			break
+		}
+		rec.settle(quiet, 10*quiet)
+		if r := ctl.releaseOne(srng, c.PRev, c.PFwd); r != nil {
+			out.releases++
+			idleStrikes = 0
+			if led.LastRound() >= tip {
+				tipReleases++
+				if tipReleases > c.TipBudget {
+					out.end = "tip"
+					break
+				}
+			}
+			continue
+		}
+		// nothing pending: the service is between syncs, finished, or waiting for a pending certificate
+		last := led.LastRound()
+		if c.PushCerts && last < tip && pushedRound <= last {
+			// "agreement" holds a certificate for the next round but not the block (fetchRound path)
+			pc := PendingUnmatchedCertificate{Cert: chain.certs[last+1]}
+			rec.mu.Lock()
+			rec.pushed[string(protocol.Encode(&pc.Cert))] = true
+			rec.mu.Unlock()
+			select {
+			case certCh <- pc:
+				pushedRound = last + 1
+				rec.add(c30Event{What: "pushcert", Round: uint64(last + 1), OK: true})
+			default:
+			}
+		}
+		if last >= tip && c.Parallel == 0 {
+			out.end = "tip"
+			break
+		}
+		select {
+		case <-rec.wake:
+			idleStrikes = 0
+		case <-time.After(idleWait):
+			idleStrikes++
+		}
+		if idleStrikes >= 2 {
+			if last >= tip {
+				out.end = "tip"
+			} else {
+				out.end = "stalled"
+			}
+			break
+		}
+	}
+
+	vk.Add("ms_scheduling_"+out.end, time.Since(start).Milliseconds())
+
+	// ---- clean stop: Stop cancels the service context and joins its workers; every gate is opened
+	done := make(chan struct{})
+	go func() {
+		s.Stop()
+		close(done)
+	}()
+	ctl.close()
+	<-done // no wall-clock verdict here: a hang is caught by the unit timeout and reported as inconclusive
+	vk.Add("ms_case_total", time.Since(start).Milliseconds())
+
+	// ---- oracle
+	if v := c30CheckLog(chain, basics.Round(c.Start), rec); v != "" {
+		hist := rec.history()
+		c30FirstFailure.Do(func() {
+			fmt.Fprintf(os.Stderr, "C30 VIOLATION: %s\ncase: %+v\nhistory (first failing execution, schedule-dependent):\n%s\n", v, c, hist)
+		})
+		t.Fatalf("C30 violated: %s\ncase: %+v\nend=%s\nhistory:\n%s", v, c, out.end, hist)
+	}
+
+	// ---- classification (evidence only)
+	c30Classify(vk, c, chain, ctl, rec, &out)
+	vk.Case(out.nontrivial, fmt.Sprintf("%+v", c))
+	if vk.WantSample(out.nontrivial) {
+		vk.Sample(out.nontrivial, map[string]interface{}{"case": c, "end": out.end, "releases": out.releases, "writes": out.writes, "history_head": c30Head(rec, 60)})
+	}
+}
+
+func c30Head(rec *c30Rec, n int) []string {
+	rec.mu.Lock()
+	defer rec.mu.Unlock()
+	var out []string
+	for i, e := range rec.events {
+		if i >= n {
+			break
+		}
+		out = append(out, e.String())
+	}
+	return out
+}
+
+// c30Classify derives the labels: for every written round, which tampered responses were delivered before the honest one
+// that was written, and whether honest responses of later rounds had been delivered before that tampered one.
+func c30Classify(vk *vkCtx, c c30Case, chain *c30Chain, ctl *c30Ctl, rec *c30Rec, out *c30Outcome) {
+	ctl.mu.Lock()
+	all := append([]*c30Req(nil), ctl.all...)
+	ctl.mu.Unlock()
+	rec.mu.Lock()
+	writeSeq := map[basics.Round]int{}
+	methods := map[string]int{}
+	for _, w := range rec.writes {
+		writeSeq[w.blk.Round()] = w.seq
+		methods[w.method]++
+	}
+	nAuth, nRej := 0, 0
+	for _, a := range rec.auths {
+		nAuth++
+		if !a.verdict {
+			nRej++
+		}
+	}
+	rec.mu.Unlock()
+	out.writes = len(writeSeq)
+
+	var dels []*c30Req
+	for _, r := range all {
+		if r.released && r.delivered {
+			dels = append(dels, r)
+			vk.Label("delivered:" + r.resp.kind.String())
+			if r.dup {
+				vk.Label("delivered:duplicate")
+			}
+			if r.resp.noop {
+				vk.Label("delivered:tamper-noop")
+			}
+		}
+	}
+	sort.Slice(dels, func(i, j int) bool { return dels[i].relSeq < dels[j].relSeq })
+	isHonest := func(r *c30Req) bool { return r.resp.kind == c30Honest || r.resp.noop }
+
+	tamperFirst, ntRounds, oooRounds := 0, 0, 0
+	for rnd, wseq := range writeSeq {
+		var honest *c30Req
+		for _, r := range dels {
+			if r.round == rnd && r.relSeq < wseq && isHonest(r) {
+				honest = r // the last honest delivery before the write is the one that was written
+			}
+		}
+		if honest == nil {
+			continue
+		}
+		laterBeforeHonest := false
+		for _, q := range dels {
+			if q.round > rnd && isHonest(q) && q.relSeq < honest.relSeq {
+				laterBeforeHonest = true
+				break
+			}
+		}
+		if laterBeforeHonest {
+			oooRounds++
+		}
+		roundTF, roundNT := false, false
+		for _, r := range dels {
+			if r.round != rnd || r.relSeq >= honest.relSeq || !r.resp.kind.tampered() || r.resp.noop {
+				continue
+			}
+			roundTF = true
+			later := false
+			for _, q := range dels {
+				if q.round > rnd && isHonest(q) && q.relSeq < r.relSeq {
+					later = true
+					break
+				}
+			}
+			if later {
+				roundNT = true
+				vk.Label("nt:" + r.resp.kind.String() + "/tamper-first+later-fetched")
+			} else {
+				vk.Label("tf:" + r.resp.kind.String() + "/tamper-first")
+			}
+		}
+		if roundTF {
+			tamperFirst++
+		}
+		if roundNT {
+			ntRounds++
+		}
+	}
+	out.nontrivial = ntRounds > 0
+	if c.Parallel == 0 {
+		// fetchRound path: one round at a time, so "later rounds already fetched" cannot occur; tamper-first is the interesting order
+		out.nontrivial = tamperFirst > 0
+	}
+	switch {
+	case ntRounds > 0:
+		vk.Label("case:tamper-first+later-fetched")
+	case tamperFirst > 0:
+		vk.Label("case:tamper-first-only")
+	case oooRounds > 0:
+		vk.Label("case:honest-out-of-order-only")
+	default:
+		vk.Label("case:in-order-honest")
+	}
+	vk.Label("end:" + out.end)
+	if out.end == "deadline" {
+		vk.Add("inconclusive_case_deadline", 1)
+	}
+	vk.Labelf("peers=%d", len(c.Peers))
+	vk.Labelf("validateMode=%d", c.Mode)
+	vk.Labelf("parallel=%d", c.Parallel)
+	switch {
+	case out.writes == 0:
+		vk.Label("writes=0")
+	case basics.Round(c.Start+out.writes) >= chain.tip():
+		vk.Label("writes=reached-tip")
+	default:
+		vk.Label("writes=partial")
+	}
+	vk.Add("rounds_written", int64(out.writes))
+	vk.Add("rounds_tamper_first", int64(tamperFirst))
+	vk.Add("rounds_nontrivial", int64(ntRounds))
+	vk.Add("rounds_later_fetched_first", int64(oooRounds))
+	vk.Add("responses_delivered", int64(len(dels)))
+	vk.Add("auth_calls", int64(nAuth))
+	vk.Add("auth_rejections", int64(nRej))
+	for m, n := range methods {
+		vk.Add("writes_"+m, int64(n))
+	}
+}
+
+// ---------------------------------------------------------------- tests
+
+const c30Rule = "case = canonical chain of 8-30 blocks (0-4 dummy-signed txns each, linked headers, real TxnCommitments) + 2-5 mock peers (HTTP round-tripper or ws UnicastPeer, " +
+	"spread over the four peer classes) whose per-request answers come from drawn profiles (honest / payset altered / header altered / consistent alteration / forged pair / " +
+	"forged cert / cert of another round / pair of another round / renumbered variants / fabricated block beyond the tip / garbage / no-block / errors / duplicates / slow), " +
+	"profiles flip over time; responses are released one at a time through gates, order policy drawn (later-rounds-first, uniform, in-order); " +
+	"service config drawn (parallelism, validate mode 0/4/8/12, pending-certificate pushes). " +
+	"Non-trivial = for some written round a tampered (decodable block+cert) response was delivered before the honest one that got written while an honest response for a later round had already been delivered; " +
+	"distinct by the full drawn case (seed included)."
+
+func c30Assume(vk *vkCtx) {
+	vk.Assume("the authenticator is a mock: verdict = cert.Round==block.Round && cert.BlockDigest==block.Digest && keyed marker valid; the harness issues markers only for canonical blocks (real vote verification is C04's subject)")
+	vk.Assume("the ledger is the upstream mockedLedger behind a recording wrapper; nobody but the service writes to it after setup")
+	vk.Assume("CatchupBlockValidateMode bits 0/1 (which switch the two checks off by configuration) are never set")
+	vk.Assume("goroutine interleavings inside the service that the response gates cannot force are explored only as the Go scheduler produces them")
+}
 
 func TestVerif_C30_Pipeline(t *testing.T) {
 	vk := vkBegin(t, "C30")
-	vk.Rule("placeholder")
+	vk.Rule(c30Rule)
+	c30Assume(vk)
+	defer c30QuietGlobals()()
+	log := c30Logger()
+	rapid.Check(t, func(rt *rapid.T) {
+		c := c30DrawCase(rt, false)
+		c30RunCase(rt, vk, log, c)
+	})
+}
+
+// fetchRound path only: catchup's own pipeline is disabled (CatchupParallelBlocks=0) and every block is requested through a
+// pending certificate handed over by "agreement".
+func TestVerif_C30_CertPath(t *testing.T) {
+	vk := vkBegin(t, "C30")
+	vk.Rule(c30Rule + " CertPath unit: CatchupParallelBlocks=0, every round is fetched by fetchRound for a certificate pushed through the pending-certificate channel.")
+	c30Assume(vk)
+	defer c30QuietGlobals()()
+	log := c30Logger()
+	rapid.Check(t, func(rt *rapid.T) {
+		c := c30DrawCase(rt, true)
+		c30RunCase(rt, vk, log, c)
+	})
 }
